@@ -69,6 +69,14 @@ TUnset == IsEv("Unset") /\ Unset(Trace[l].t, Trace[l].req) /\ MatchReq /\ Match
 TGet == IsEv("Get") /\ Get(Trace[l].t, Trace[l].req) /\ MatchReq /\ Match
 TCommit == IsEv("Commit") /\ Commit(Trace[l].t) /\ last'.res = FromR(Trace[l].res) /\ Match
 
+\* View.Set did not return (driver watchdog).  The model says this request is one to be rejected as a bad
+\* request and nothing changes; the non-termination itself is reported by props/_registryview.py.  The driver
+\* abandons the world afterwards (next line is a Reset).
+THang == /\ IsEv("Hang")
+         /\ open[Trace[l].t]
+         /\ ViewSet(Trace[l].req, FromJ(Trace[l].val)).res = BadReq
+         /\ UNCHANGED vars
+
 \* state level only: SetViaView / GetViaView drop their transaction when they return
 TEnd == /\ IsEv("End")
         /\ open[Trace[l].t]
@@ -99,7 +107,7 @@ TInit == /\ l = 1
          /\ nops = [t \in Txns |-> 0]
          /\ mon = AllOk
          /\ last = [op |-> "init"]
-TNext == TReset \/ TBegin \/ TSet \/ TUnset \/ TGet \/ TCommit \/ TEnd \/ TOther
+TNext == TReset \/ TBegin \/ TSet \/ TUnset \/ TGet \/ TCommit \/ TEnd \/ TOther \/ THang
 
 IsReset == l <= Len(Trace) /\ Trace[l].ev = "Reset"
 TraceRejected == [][IsReset \/ (l <= Len(Trace) /\ Trace[l].ev = "Other") \/ RejectedStep]_<<vars, l>>
